@@ -279,6 +279,7 @@ pub fn run(cases: &[Value], trace: &mut Trace, seed: u64) {
         let mode = case["mode"].as_str().unwrap_or("pair");
         let adapter = case["adapter"].as_str().unwrap_or("mutex");
         trace.emit(json!({"ev": "reset", "id": case["id"], "mode": mode, "adapter": adapter}));
+        let watch = FdWatch::start();
         let mut st = json!({"ra": false, "so": false, "sh": false, "hra": false});
         // endpoints
         let srv = if mode != "rawpeer" { Some(new_srv(adapter)) } else { None };
@@ -600,5 +601,6 @@ pub fn run(cases: &[Value], trace: &mut Trace, seed: u64) {
         if let Some(s) = srv {
             s.finish();
         }
+        trace.emit(watch.finish());
     }
 }
